@@ -14,6 +14,7 @@ One event = one atomic action of the real code:
   `cbin run` / `cbout` (the routine function, harness-controlled), `closeExit` (`cancel();
   close(exitedCh)`), `record` (the final critical section, 125-157; only for the instance that is
   still current for the record in the map — for any other it does nothing and is not an event);
+* `boff k armed` (observation only: the harness' scripted backoff logs its answer to `NextBackOff`);
 * `timerRemove k` / `timerRetry k` (the `time.AfterFunc` callbacks), `advance` (new time epoch),
   `quiesce` (nothing left to do), `probe` (harness reads `ctx.Err()` inside a running instance).
 
@@ -586,6 +587,7 @@ inductive Ev where
   | probe (j : Nat) (cancelled : Bool)
   | nilnext (k : Nat)
   | cancelroot
+  | boff (k : Nat) (armed : Bool)
 deriving DecidableEq, Repr, Hashable
 
 /-- what the harness logs -/
@@ -601,6 +603,7 @@ inductive Obs where
   | probe (j : Nat) (cancelled : Bool)
   | nilnext (k : Nat)
   | cancelroot
+  | boff (k : Nat) (armed : Bool)
 deriving DecidableEq, Repr, Hashable
 
 def Ev.obs : Ev → Option Obs
@@ -615,6 +618,7 @@ def Ev.obs : Ev → Option Obs
   | .probe j c => some (.probe j c)
   | .nilnext k => some (.nilnext k)
   | .cancelroot => some .cancelroot
+  | .boff k b => some (.boff k b)
   | _ => none
 
 /-- the operation of the invoked call `id` whose critical section has not run yet -/
@@ -642,6 +646,21 @@ def instStep (s : St) (g i : Nat) (f : G → Inst → Option Inst) : Option St :
       match f y x with
       | none => none
       | some x' => some (modInst s g i fun _ => x')
+
+/-- what the harness' backoff object sees when the exit bookkeeping asks it (`NextBackOff`, routine.go:139, inside
+the final critical section of a failed current instance whose record is in the map): the record has exited with
+an error, `r.exitedCh` is nil, and the retry timer is armed now (`armed`) or the backoff said `Stop` -/
+def boffOk (s : St) (k : Nat) (armed : Bool) : Bool :=
+  match s.key k with
+  | none => false
+  | some r =>
+    r.exited && r.err &&
+    (match s.gens[r.gen]? with
+     | some y => y.last.isNone
+     | none => false) &&
+    (match r.deferRetry with
+     | some e => armed && decide (e ≤ s.epoch)
+     | none => !armed)
 
 def step (s : St) : Ev → Option St
   | .config c => if s.cfg.isNone then some { s with cfg := some c } else none
@@ -722,6 +741,7 @@ def step (s : St) : Ev → Option St
   | .cancelroot =>
     -- the harness cancels the installed root context between two calls
     if s.calls = [] ∧ isLive s.ctx then some (cancelAll { s with ctx := some 0 }) else none
+  | .boff k armed => if boffOk s k armed then some s else none
 
 /-- internal events worth trying -/
 def cands (s : St) : List Ev :=
@@ -752,6 +772,7 @@ def evsOf (s : St) : Obs → List Ev
   | .probe j c => [.probe j c]
   | .nilnext k => [.nilnext k]
   | .cancelroot => [.cancelroot]
+  | .boff k b => [.boff k b]
 
 def model : OLTS St Ev Obs where
   init := {}
@@ -843,6 +864,7 @@ def Obs.parse : List String → Option Obs
   | ["probe", j, c] => do pure (.probe (← j.toNat?) (← pBool "cancelled" "live" c))
   | ["env", "nilnext", k] => do pure (.nilnext (← k.toNat?))
   | ["env", "cancelroot"] => some .cancelroot
+  | ["env", "boff", k, b] => do pure (.boff (← k.toNat?) (← pBool "armed" "stop" b))
   | _ => none
 
 end UtilModel.Keyed
